@@ -99,6 +99,12 @@ func samScribble(s *sam.SAM) {
 func samRead(data []byte, mode string) (items []samItem, panicked bool, capped bool) {
 	items = []samItem{}
 	panicked, _ = catch(func() {
+		if failedReadsFirst {
+			for _, t := range malformedTexts["sam"] {
+				for range sam.Reader(strings.NewReader(t)) {
+				}
+			}
+		}
 		if mode == "header" {
 			for sh, err := range sam.ReaderHeader(deliver(data)) {
 				switch {
@@ -519,6 +525,7 @@ func samDrive(args []string) error {
 		}
 		r := newRand(int64(sid) + 3000)
 		readDelivery = []int{0, 0, 1, 0, 2, 3}[sid%6]
+		failedReadsFirst = sid%3 == 2
 		nh, nr := r.Intn(6), r.Intn(21)
 		if sid%4 == 0 {
 			nr = r.Intn(4)
